@@ -210,3 +210,5 @@ def run(ctx):
     ctx.extra['transducer_cells'] = len(T)
     ctx.extra['sample_cells'] = {'%s/%s/%s' % k: [list(a) for a in v['actions']] for k, v in list(sorted(
         T.items(), key=lambda x: str(x[0])))[:6]}
+    from . import memo_rules as M
+    M.memo_sound(ctx, 'R07.M')
